@@ -48,7 +48,7 @@ def run_harness(exe, ops, timeout=600, cwd=None, env_extra=None):
         env.update(env_extra)
     try:
         try:
-            r = subprocess.run([exe], input="\n".join(ops) + "\n", capture_output=True, text=True, cwd=cwd,
+            r = subprocess.run(exe if isinstance(exe, list) else [exe], input="\n".join(ops) + "\n", capture_output=True, text=True, cwd=cwd,
                                env=env, timeout=timeout, errors="replace")
             out, err, rc = r.stdout, r.stderr, r.returncode
         except subprocess.TimeoutExpired as e:
